@@ -963,7 +963,7 @@ def create_agents(
                 name,
                 default_route=default_route,
                 routes=routes,
-                default_hosting_costs=default_hosting_costs,
+                default_hosting_cost=default_hosting_costs,
                 hosting_costs=hosting_costs,
                 **kwargs,
             )
@@ -975,7 +975,7 @@ def create_agents(
                 name,
                 default_route=default_route,
                 routes=routes,
-                default_hosting_costs=default_hosting_costs,
+                default_hosting_cost=default_hosting_costs,
                 hosting_costs=hosting_costs,
                 **kwargs,
             )
@@ -986,7 +986,7 @@ def create_agents(
                 name,
                 default_route=default_route,
                 routes=routes,
-                default_hosting_costs=default_hosting_costs,
+                default_hosting_cost=default_hosting_costs,
                 hosting_costs=hosting_costs,
                 **kwargs,
             )
